@@ -640,6 +640,12 @@ def run(rep):
     rep.guarded("R-C01-nodes", lambda r: C01.rule_nodes(r, holder.get("polys", {})))
     rep.floor("R-C01-nodes", 12)
     rep.clause("R-C01-nodes", "the nearest-time helpers return sub-indices in [0, factor) with the carry into the sample index, and every arm uses the matching helper (shared with C01)")
+    # reading uninitialised memory is undefined behaviour: no body may obtain storage it has not written (shared with C18)
+    import C18
+    import mir
+    rep.guarded("R-C18-uninit", lambda r: C18.rule_uninit(r, mir.mode_p(r.ctx.repo)))
+    rep.floor("R-C18-uninit", 1)
+    rep.clause("R-C18-uninit", "no rubato body obtains uninitialised or reinterpreted memory (set_len over spare capacity, MaybeUninit, raw allocation, transmute, from_raw_parts) - shared with C18")
     import arith
     rep.guarded("R-C03-arith", arith.run)
     rep.floor("R-C03-arith", 60)     # 74 sites on the reviewed tree; a few may legitimately disappear (e.g. saturating_sub)
